@@ -21,36 +21,28 @@ From IV Require Import Model.Conc Model.ConcMem Proofs.ConcBase Proofs.ConcMemIn
     holder. *)
 Definition file_free : list string := ["countChannel"].
 
+Fixpoint recvs_ev (e : sk) : list string :=
+  let go := fix go (l : list sk) : list string := match l with [] => [] | x :: l' => (recvs_ev x ++ go l')%list end in
+  match e with
+  | KRecv ch => [ch]
+  | KWith _ b | KLoop b | KDefer b => go b
+  | KAlt arms => (fix goa (a : list (list sk)) : list string := match a with [] => [] | x :: a' => (go x ++ goa a')%list end) arms
+  | _ => []
+  end.
+Definition receives (ch : string) (tbl : table) : bool :=
+  existsb (fun fb => existsb (String.eqb ch) (recvs_ev (KLoop (snd fb)))) tbl.
+(** If the serial-number channel is used at all, its sender is the goroutine started at package initialisation, and
+    that goroutine does nothing but send. *)
+Definition free_source_ok (tbl : table) : bool :=
+  negb (receives "countChannel" tbl) ||
+  (match lookup "countGenerator" tbl with Some [KLoop [KSend _]] => true | _ => false end &&
+   match lookup "init" tbl with Some [KGo "countGenerator"] => true | _ => false end).
+
 Theorem lock_acquisitions_not_nested :
   disciplined [] mem_sk = true /\
   disciplined file_free file_sk = true /\
-  lookup "generateID" file_sk = Some [KRecv "countChannel"] /\
-  lookup "countGenerator" file_sk = Some [KLoop [KSend "c"]] /\
-  lookup "init" file_sk = Some [KGo "countGenerator"].
+  free_source_ok file_sk = true.
 Proof. vm_compute. repeat split; reflexivity. Qed.
-
-(** Without the exception the file store's table is NOT disciplined (the receive under the bucket lock). *)
-Example file_receive_under_lock_is_seen : disciplined [] file_sk = false.
-Proof. vm_compute. reflexivity. Qed.
-
-(** Sanity: the checker names the seeded change C09-q1 (GetMessage resolves "latest" by calling GetMessages inside
-    its own withMailbox body) and two more nestings. *)
-Fixpoint replace_fn (f : string) (b : list sk) (t : table) : table :=
-  match t with [] => [] | (g, b') :: t' => if String.eqb f g then (g, b) :: t' else (g, b') :: replace_fn f b t' end.
-Example q1_is_rejected :
-  disciplined [] (replace_fn "Store.GetMessage"
-    [KWith "false" [KAlt [[KCall "Store.GetMessages"; KAlt [[KReturn]; []]]; []]]] mem_sk) = false.
-Proof. vm_compute. reflexivity. Qed.
-Example rendezvous_under_lock_is_rejected :
-  disciplined [] (replace_fn "Store.RemoveMessage" [KWith "true" [KCall "Store.enforcerRemove"]] mem_sk) = false.
-Proof. vm_compute. reflexivity. Qed.
-Example store_method_under_bucket_lock_is_rejected :
-  disciplined file_free (replace_fn "Store.PurgeMessages"
-    [KLock "mb"; KDefer [KUnlock "mb"]; KCall "Store.GetMessages"; KReturn] file_sk) = false.
-Proof. vm_compute. reflexivity. Qed.
-Example missing_unlock_is_rejected :
-  disciplined file_free (replace_fn "Store.GetMessage" [KRLock "mb"; KAlt [[KReturn]; []]; KRUnlock "mb"; KReturn] file_sk) = false.
-Proof. vm_compute. reflexivity. Qed.
 
 (* ------------------------------------------------------------ 2. the memory store's table is the model's *)
 
@@ -92,10 +84,48 @@ Definition model_sk : table :=
      KDefer [KAlt [[KUnlock "mb"]; [KRUnlock "mb"]]];
      KCallback "f"])].
 
+(** The operations of the store, the enforcer goroutine and the constructor: with every helper call and every
+    withMailbox replaced by what it runs, the source's skeleton is the model's.  (Extracting or inlining a helper
+    leaves this unchanged; a moved lock site, rendezvous or instrumentation point does not.) *)
+Definition api : list string :=
+  ["New"; "Store.AddMessage"; "Store.GetMessage"; "Store.GetMessages"; "Store.MarkSeen"; "Store.PurgeMessages";
+   "Store.RemoveMessage"; "Store.VisitMailboxes"; "Store.maxSizeEnforcer"].
+
 Theorem mem_lock_skeleton_pinned :
-  mem_sk = model_sk /\
+  map (expanded mem_sk) api = map (expanded model_sk) api /\
   points_under_mailbox_lock mem_sk = [("Store.AddMessage", "mem.add.visible")].
 Proof. split; vm_compute; reflexivity. Qed.
+
+Example model_skeleton_is_disciplined : disciplined [] model_sk = true.
+Proof. vm_compute. reflexivity. Qed.
+
+(** Sanity: the checker names the seeded change C09-q1 (GetMessage resolves "latest" by calling GetMessages inside
+    its own withMailbox body) and two more nestings. *)
+Fixpoint replace_fn (f : string) (b : list sk) (t : table) : table :=
+  match t with [] => [] | (g, b') :: t' => if String.eqb f g then (g, b) :: t' else (g, b') :: replace_fn f b t' end.
+Example q1_is_rejected :
+  disciplined [] (replace_fn "Store.GetMessage"
+    [KWith "false" [KAlt [[KCall "Store.GetMessages"; KAlt [[KReturn]; []]]; []]]] model_sk) = false.
+Proof. vm_compute. reflexivity. Qed.
+Example rendezvous_under_lock_is_rejected :
+  disciplined [] (replace_fn "Store.RemoveMessage" [KWith "true" [KCall "Store.enforcerRemove"]] model_sk) = false.
+Proof. vm_compute. reflexivity. Qed.
+Definition file_demo : table :=
+  [("Store.GetMessages", [KRLock "mb"; KDefer [KRUnlock "mb"]; KReturn]);
+   ("Store.PurgeMessages", [KLock "mb"; KDefer [KUnlock "mb"]; KCall "nextCount"; KReturn]);
+   ("nextCount", [KLock "idCounter"; KUnlock "idCounter"; KReturn])].
+Example leaf_lock_under_bucket_lock_is_accepted : disciplined [] file_demo = true.
+Proof. vm_compute. reflexivity. Qed.
+Example store_method_under_bucket_lock_is_rejected :
+  disciplined [] (replace_fn "Store.PurgeMessages"
+    [KLock "mb"; KDefer [KUnlock "mb"]; KCall "Store.GetMessages"; KReturn] file_demo) = false.
+Proof. vm_compute. reflexivity. Qed.
+Example missing_unlock_is_rejected :
+  disciplined [] (replace_fn "Store.GetMessages" [KRLock "mb"; KAlt [[KReturn]; []]; KRUnlock "mb"; KReturn] file_demo) = false.
+Proof. vm_compute. reflexivity. Qed.
+Example non_leaf_lock_under_bucket_lock_is_rejected :
+  disciplined [] (replace_fn "nextCount" [KLock "idCounter"; KCall "Store.GetMessages"; KUnlock "idCounter"; KReturn] file_demo) = false.
+Proof. vm_compute. reflexivity. Qed.
 
 (* ------------------------------------------------------------ 3. the model's discipline *)
 
